@@ -155,7 +155,7 @@ class FragmentsEngine(Engine):
         bufs = []
         for b in range(nbuf):
             fill = FILLS[ch.draw("fill", len(FILLS))]
-            f = self.Fragments(fill) if fill != b"." else self.Fragments()
+            f = self.Fragments(fill=fill) if fill != b"." else self.Fragments()
             bufs.append([f, SparseModel(fill), _Bytes(fill), False])
             ev("buffer %d fill=%r" % (b, fill))
         if nbuf == 2:
